@@ -38,12 +38,17 @@ def simple_name(r):
     return word(r, 2, 6)
 
 def path_name(r, segs=("a", "b", "c", "d"), maxdepth=4):
-    return "/".join(r.choice(segs) for _ in range(r.randint(1, maxdepth)))
+    parts = [r.choice(segs) for _ in range(r.randint(1, maxdepth))]
+    x = r.random()
+    if x < 0.06 and len(parts) > 1: parts.insert(r.randint(1, len(parts) - 1), "")      # an empty segment: a//b is not a/b
+    elif x < 0.09: parts.append("")                                                        # trailing separator: a/ is not a
+    return "/".join(parts)
 
 NUM_SPECIAL = ["NaN", "nan", "Inf", "+Inf", "-Inf", "infinity", "-Infinity", "0x1p-2", "0x1.8p1", "1_000", "1_0.5", "-0", "+0", "0.0", "-0.0",
                "1e308", "1e-320", "4.9e-324", "2.2250738585072011e-308", "1.7976931348623157e308", "1e22", "1e23", "9007199254740993",
                "0.1", "0.2", "0.3", "2.675", "1.005", "0.125", "0.375", "0.625", "8.125", "0.0005", "-0.0005", "0.0015", "-0.0007", "-0.004", "0.004", "0.005", "0.015", "-0.006",
-               ".5", "5.", "1E3", "1e+3", "1e-3", "007", "00.50"]
+               ".5", "5.", "1E3", "1e+3", "1e-3", "007", "00.50",
+               "300000.87", "131072.13", "16777217", "1234567.89", "-250000.37", "99999.995", "33554433.5"]
 
 def number(r, envelope=False, special=0.12):
     """a lexeme strconv.ParseFloat accepts. envelope=True: small dyadic values whose sums/products and two-decimal
@@ -227,11 +232,12 @@ def log(r, foods, n_days=None, layout="2006/01/02", envelope=False, notes=0.15, 
     items = []
     for (y, m, d) in days:
         items.append(("heading", _fmt(layout, y, m, d)))
-        k = r.choice([0, 1, 2, 3, 3, 4, 6])
+        k = r.choice([0, 1, 2, 3, 3, 4, 6, 6, 11, 16])     # long days too: more distinct foods than any small fixed capacity
         used = []
+        pool = foods if k < 10 else foods + [word(r, 3, 8) for _ in range(k)]
         for _ in range(k):
             if r.random() < notes: items.append(("note", r.choice([None, word(r)]), word(r) + " " + word(r)))
-            f = r.choice(used) if used and r.random() < 0.25 else r.choice(foods)
+            f = (used[0] if r.random() < 0.4 else r.choice(used)) if used and r.random() < 0.25 else r.choice(pool)
             used.append(f)
             items.append(("entry", f, number(r, envelope)))
     return items
